@@ -13,7 +13,7 @@ Two oracles judge each history:
 import itertools
 import random
 
-from common import Rep, drive, df17, me_ident, seal
+from common import Rep, Inconclusive, drive, df17, me_ident, seal
 
 RULE = ("a case is one arrival history (window W, sequence of (frame, timestamp, unique reception id)) replayed "
         "through the real deduplicate_messages task; exhaustive part: every history of length <= L over "
@@ -24,7 +24,9 @@ RULE = ("a case is one arrival history (window W, sequence of (frame, timestamp,
 
 ASSUMPTIONS = [
     "frames called decodable are DF17/DF11/DF4 frames sealed by the checker's own bit-serial CRC; undecodable ones are "
-    "a DF17 frame with a payload bit flipped, a 3-byte fragment and the empty frame",
+    "a DF17 frame with a payload bit flipped, a 3-byte fragment and the empty frame; six frames longer than their format announces (DF 0/4/11 "
+    "in 14 or 8 bytes as a Beast type '3' record delivers them, DF17 with one or two trailing bytes) are in the pool of the random histories and "
+    "of the decode1090 pass, on the side the library's byte-buffer entry point (Message::from_bytes, asked through `rsmon decodable`) puts them",
     "the clock of the property is the one the implementation documents: milliseconds, floor(timestamp * 1e3)",
     "driver hook H3 logs at the channel boundary: IN before send, OUT after the task is parked on recv() again",
     "a reception = (receiver serial 0..4, unique id carried in the metadata's nanoseconds field): neighbouring receptions often come from the same receiver, as in production; "
@@ -42,7 +44,32 @@ MANDATORY = ["system:receptions-with-a-receiver-clock", "system:records", "syste
              "shape:undecodable-group-dropped", "shape:group>=3", "shape:joined-at-expiry", "shape:several-closed-at-once"]
 
 
-def frame_pool():
+def overlong_frames(rsmon):
+    """frames longer than their downlink format announces (a Beast type '3' record whose first five bits say DF 0/4/5/11; a long
+    frame with trailing bytes): the reader hands them on as they are. Whether they are decodable is not the checker's
+    to say: the library's byte-buffer entry point (Message::from_bytes, asked through `rsmon decodable`) decides."""
+    short4 = seal(bytes([0x20, 0x00, 0x17, 0x9F]), 0x86B805)
+    short11 = seal(bytes([0x5D, 0x3C, 0x65, 0x89]), 0)
+    short0 = seal(bytes([0x02, 0xE1, 0x98, 0x38]), 0x4840D6)
+    long17 = df17(0x4B1A2C, me_ident(4, 1, "OVERLONG"))
+    cand = [short4 + bytes(7), short11 + bytes([1, 2, 3, 4, 5, 6, 7]), short0 + bytes(7), long17 + b"\x00", long17 + b"\xff\xff", short4 + b"\x00"]
+    cand = [c.hex() for c in cand]
+    import subprocess
+    try:
+        p = subprocess.run([rsmon, "decodable"], input=("\n".join(cand) + "\n").encode(), stdout=subprocess.PIPE, stderr=subprocess.PIPE, timeout=120)
+    except (OSError, subprocess.TimeoutExpired) as e:
+        raise Inconclusive(f"rsmon decodable: {e}")
+    ans = p.stdout.decode().split()
+    if p.returncode != 0 or len(ans) != len(cand):
+        raise Inconclusive("rsmon decodable failed: " + p.stderr.decode(errors="replace")[-500:])
+    return [c for c, a in zip(cand, ans) if a == "1"], [c for c, a in zip(cand, ans) if a != "1"]
+
+
+def frame_pool(rsmon=None):
+    if rsmon:
+        d0, u0 = frame_pool()
+        d1, u1 = overlong_frames(rsmon)
+        return d0 + d1, u0 + u1
     dec = []
     for k, aa in enumerate([0x4840D6, 0x3C6589, 0xABCDEF, 0x000001, 0xFFFFFE, 0x7C1A2B]):
         dec.append(df17(aa, me_ident(4, k % 8, "TEST%03d" % k)).hex())
@@ -443,13 +470,15 @@ def cli_history(rng, dec, undec):
 
 
 def worker(args):
-    shard, nshards, tier, seed, binary = args
+    shard, nshards, tier, seed, binary, rsmon = args
     rep = Rep("C10")
     rep.rule = RULE
     rep.assumptions = ASSUMPTIONS
     rep.extra["mandatory"] = MANDATORY
-    dec, undec = frame_pool()
+    dec, undec = frame_pool(rsmon)
     decodable = set(dec)
+    rep.cls("pool:overlong-frames-decodable(library's verdict)", len(dec) - 8)
+    rep.cls("pool:overlong-frames-undecodable(library's verdict)", len(undec) - 3)
     maxlen = 4 if tier == "quick" else 5
     rid = 0
     batch = []
@@ -503,9 +532,9 @@ def worker(args):
     return rep.to_dict()
 
 
-def replay(binary, data):
+def replay(binary, data, rsmon=None):
     rep = Rep("C10")
-    dec, undec = frame_pool()
+    dec, undec = frame_pool(rsmon)
     r = data["replay"]
     ins = [tuple(x) for x in r["ins"]]
     if r.get("mode") == "decode1090":
